@@ -197,7 +197,7 @@ def stale_states(pat, old, new, tier):
     return out[:2] if tier == "quick" else out
 
 
-def build_project(pat, old, fmt, files, entries, explicit_cfg, file_state=None):
+def build_project(pat, old, fmt, files, entries, explicit_cfg, file_state=None, cfg_eol="\n"):
     old_text = M.render(pat.tree, old)
     entries = list(entries)
     if any(e[0] == "README.md" for e in entries):
@@ -208,7 +208,7 @@ def build_project(pat, old, fmt, files, entries, explicit_cfg, file_state=None):
         own = 'current_version = "{version}"' if fmt.endswith(".toml") else "current_version = {version}"
         entries = [(fmt, [own])] + entries
     # the config file is a pattern file too: it carries non-ASCII text (a comment) that must survive, in any locale
-    tree = {fmt: pt.config_text(fmt, pat.text, old_text, entries, extra="# préambule € \U0001F680").encode("utf-8"),
+    tree = {fmt: pt.config_text(fmt, pat.text, old_text, entries, extra="# préambule € \U0001F680").replace("\n", cfg_eol).encode("utf-8"),
             "bystander.txt": (old_text + "\n").encode()}
     for f in files:
         tree[f.name] = f.render_old(file_state or old).encode("utf-8")
@@ -216,11 +216,11 @@ def build_project(pat, old, fmt, files, entries, explicit_cfg, file_state=None):
 
 
 def run_project(st, pat, label, old, new, fmt, lid, arrangement, files, entries, explicit_cfg, want=("occurrence",), prefix="C03", set_version=None,
-                stale=None):
+                stale=None, cfg_eol="\n"):
     old_text, new_text = M.render(pat.tree, old), M.render(pat.tree, new)
     if set_version is not None:
         new_text = set_version
-    tree, files = build_project(pat, old, fmt, files, entries, explicit_cfg, file_state=stale[1] if stale else None)
+    tree, files = build_project(pat, old, fmt, files, entries, explicit_cfg, file_state=stale[1] if stale else None, cfg_eol=cfg_eol)
     # the property excludes surrounding text that itself matches a configured pattern: such projects are not generated
     for f in files:
         for line in f.lines:
